@@ -15,7 +15,8 @@
 (*   Total     no lookup panics, for any address of the address space                               *)
 (*   Granted   an address in memory granted to space s resolves to s, descriptor = desc(s)          *)
 (*   Agree     sft(a) = s # empty  =>  descriptor(a) = desc(s)                                      *)
-(*   Outside   an address outside every space's slot: sft = empty, is_in_mmtk_spaces = false        *)
+(*   Outside   an address outside every space's slot: sft = empty, is_in_mmtk_spaces = false,       *)
+(*             descriptor = UNINITIALIZED (VMMap::get_descriptor_for_address documentation)         *)
 EXTENDS Integers, FiniteSets, TLC
 
 CONSTANTS LogExtent, MaxSpaces, MaxExtent,
@@ -73,5 +74,5 @@ Granted == \A a \in Universe : \A k \in GrantedTo(a) :
 Agree   == \A a \in Universe : Lookup(a).sft # Empty /\ Lookup(a).desc # Panic
               => Lookup(a).desc = Lookup(a).sft
 Outside == \A a \in Universe : SlotOfSpace(a) \notin DOMAIN spaces
-              => Lookup(a).sft = Empty /\ ~Lookup(a).inMMTk
+              => Lookup(a).sft = Empty /\ ~Lookup(a).inMMTk /\ Lookup(a).desc \in {Empty, Panic}
 =====================================================================================
